@@ -42,7 +42,8 @@ def preflight():
 
 
 def part_lists(tier):
-    out = [[(m, None)] for m in S.MODE_NAMES] + [[('byte', 'utf-8')], [('byte', 'utf-8'), ('byte', 'shift_jis')]]
+    out = [[(m, None)] for m in S.MODE_NAMES] + [[('byte', 'utf-8')], [('byte', 'utf-8'), ('byte', 'shift_jis')],
+           [('byte', 'utf-8'), ('numeric', None), ('byte', 'utf-8')], [('hanzi', None), ('numeric', None), ('hanzi', None)]]
     pairs = [(a, b) for a in S.MODE_NAMES for b in S.MODE_NAMES if a != b] if tier == 'thorough' else PAIRS_QUICK
     out += [[(a, None), (b, None)] for a, b in pairs]
     if tier == 'thorough':
@@ -57,6 +58,7 @@ def jobs(tier, seed):
         out.append({'name': 'encode:' + '+'.join(m if e is None else f'{m}/{e}' for m, e in parts), 'kind': 'enc', 'parts': parts,
                     'cost': 60, 'tier': tier})
     out.append({'name': 'make_segment-lengths', 'kind': 'seg', 'cost': 40})
+    out.append({'name': 'prepare_data-bookkeeping', 'kind': 'prep', 'cost': 40})
     return out
 
 
@@ -67,6 +69,8 @@ def run_job(spec):
         return job_fv(res, L_, [tuple(p) for p in spec['parts']])
     if spec['kind'] == 'enc':
         return job_enc(res, L_, [tuple(p) for p in spec['parts']], spec['tier'])
+    if spec['kind'] == 'prep':
+        return job_prep(res, L_)
     return job_seg(res, L_)
 
 
@@ -301,10 +305,51 @@ def job_seg(res, L_):
     return res.as_dict()
 
 
+def job_prep(res, L_):
+    """real prepare_data / Segments.add_segment on multi-part symbolic content: the bookkeeping that find_version relies on
+    (bit_length == sum of the segments' bits, modes == the segments' modes, character counts add up) holds on every path"""
+    enc, consts = L_.encoder, L_.consts
+    for lens in ((2, 2), (3, 1), (1, 3), (2, 2, 2), (3, 3), (1, 1, 1), (4, 2), (2, 1, 2)):
+        parts = [SBytes.fresh(f'p{i}_', n) for i, n in enumerate(lens)]
+        ex, paths = common.explore(lambda: enc.prepare_data(list(parts), None, None), max_paths=600)
+        res.paths += len(paths)
+        for p in paths:
+            if p.status != 'ok':
+                if not isinstance(p.value, ValueError):
+                    r, m = check(p.pc)
+                    res.obligations += 1
+                    res.violation('prepare_data-exception', f'{type(p.value).__name__}: {p.value}', {'fn': 'prepare', 'parts': [list(common.bytes_from_model(m, x)) for x in parts] if m else []})
+                continue
+            segs = p.value
+
+            def fail(what, p=p):
+                r, m = check(p.pc)
+                res.violation('segments-bookkeeping', what, {'fn': 'prepare', 'parts': [list(common.bytes_from_model(m, x)) for x in parts] if m else []})
+            tot = sum(len(sg.bits) for sg in segs.segments)
+            res.concrete('bit_length==sum-of-segment-bits', segs.bit_length == tot, lambda: fail(f'bit_length {segs.bit_length}, segments hold {tot} bits'))
+            res.concrete('modes==segment-modes', list(segs.modes) == [sg.mode for sg in segs.segments], lambda: fail('modes list differs from the segments'))
+            chars = sum(sg.char_count * (2 if sg.mode in (consts.MODE_KANJI, consts.MODE_HANZI) else 1) for sg in segs.segments)
+            res.concrete('character-counts-add-up', chars == sum(lens), lambda: fail(f'{chars} characters in the segments, {sum(lens)} given'))
+    res.sample({'case': 'prepare_data bookkeeping', 'symbolic': 'bytes of 2-3 parts'})
+    return res.as_dict()
+
+
 def replay(viol):
     import segno.encoder as enc
     from segno import consts
     inp = viol['input']
+    if inp['fn'] == 'prepare':
+        parts = [bytes(x) for x in inp['parts']]
+        try:
+            segs = enc.prepare_data(list(parts), None, None)
+        except ValueError:
+            return False, 'refused'
+        except Exception as e:
+            return True, f'{type(e).__name__}: {e}'
+        tot = sum(len(sg.bits) for sg in segs.segments)
+        chars = sum(sg.char_count * (2 if sg.mode in (consts.MODE_KANJI, consts.MODE_HANZI) else 1) for sg in segs.segments)
+        ok = segs.bit_length == tot and list(segs.modes) == [sg.mode for sg in segs.segments] and chars == sum(len(x) for x in parts)
+        return not ok, f'prepare_data({parts}): bit_length {segs.bit_length}, sum of bits {tot}, characters {chars}'
     parts = [tuple(p) for p in inp.get('parts', [])]
     if inp['fn'] == 'make_segment':
         mode = inp['mode']
